@@ -142,6 +142,31 @@ def _fmt_check(prop, what):
 CHECKS["C11"] = _fmt_check("C11", "differential against C printf")
 
 
+def _c09(tier):
+    t0 = time.time()
+    res = Results("C09")
+    jobs = harness_jobs("fmt", "C09", tier, ["plain"], nw=NCPU if tier == "thorough" else 8)
+    li = build.build_lib("plain"); exe = build.build_harness(li, "fmtw", ["fmtw.c"])
+    for grp in ("n", "w"):
+        jobs.append(("fmtw/" + grp, [exe, "--prop", "C09", "--tier", tier, "--seed", str(seed()), "--cfg", "plain", "--group", grp]))
+    la = build.build_lib("asan"); exa = build.build_harness(la, "fmtw", ["fmtw.c"])
+    for grp in ("n", "w"):
+        jobs.append(("fmtw-asan/" + grp, [exa, "--prop", "C09", "--tier", tier, "--seed", str(seed()), "--cfg", "asan", "--group", grp]))
+    run_workers(jobs, res, env=dict(os.environ, ASAN_OPTIONS="detect_leaks=0:abort_on_error=1"))
+    res.evaluations = res.counters.get("c09_decided", 0)
+    return finish(res, tier, "exploration",
+                  "narrow printf_s family (8 entry points): seeded random formats of 1-4 directives with literal text and escaped percent signs, a third containing a %n-type "
+                  "directive with random flags / width / '*' / precision / all 8 length modifiers; wide printf_s family (8) and narrow + wide scanf_s families (6 + 6): 21 spellings of "
+                  "the n conversion (plain, each length modifier, width, each flag, precision, '*', positional, after one / two escaped percent signs) x 3-4 surrounding contexts, on "
+                  "buffers, temporary-file streams and redirected stdin/stdout; every %n target is a poisoned sentinel; distinct = (entry point, spelling class, context)", t0,
+                  extra_cov=dict(builds=["plain", "asan"], harnesses=["fmt", "fmtw"], n_formats=res.counters.get("n_formats", 0) + res.counters.get("c09_n_formats", 0),
+                                 entry_points=28, exhaustive=False),
+                  assumptions=FENCE_ASSUME + ["glibc-specific spellings (I flag, positional %1$n) included; conversions only another libc would accept are not"], min_evals=500)
+
+
+CHECKS["C09"] = _c09
+
+
 def _c12(tier):
     t0 = time.time()
     res = Results("C12")
